@@ -53,6 +53,7 @@ type cfgHarness struct {
 	configAt  []time.Duration              // when each of them was installed
 	prev      *model.ClusterStatus
 	idsSeen   map[int64]string // shard id -> namespace it was first seen in
+	cutUntil  map[string]time.Duration // server -> simulated time until which it is cut off from everybody (removed while unreachable)
 	gaveUp    map[string]bool  // client -> a server answered its GetShardAssignments with "namespace not found"
 	termOf    map[int64]int64  // shard id -> highest term seen in a stored status (C05: the durable term never goes back)
 	termSent  map[int64]int64  // shard id -> highest term the coordinator has sent in a NewTerm request
@@ -73,6 +74,7 @@ type cfgClient struct {
 	epoch int // incarnation of the namespace when the client started
 	name string
 	ns   string
+	node string // the server it follows
 	sm   oxia.SimShardManager
 	ep   *Endpoint
 	err  error
@@ -483,6 +485,15 @@ func (h *cfgHarness) checkClients(where string) {
 			}
 		}
 		if len(extra) > 0 || len(missing) > 0 {
+			// a client that follows a server which is (or was until a moment ago) cut off from the
+			// coordinator sees what that server last heard: nothing is promised about it
+			h.mu.Lock()
+			until, cut := h.cutUntil[c.node]
+			h.mu.Unlock()
+			if cut && h.r.Now() < until+45*time.Second {
+				h.r.Count("clients_behind_a_cut_off_server", 1)
+				continue
+			}
 			// A shard manager whose namespace disappeared gives up for good ("namespace not found" is
 			// not retried): after the name has been re-created such a client still holds exactly the
 			// old incarnation's shards.  That is the library's documented end state, not a routing
@@ -568,7 +579,7 @@ func runConfigHistory(r *Run, prop string) {
 		r.Knobs["yield"] = fmt.Sprintf("%d/%d/%v", w.SitePct, w.YieldPct, w.YieldMax)
 	}
 	wal.DefaultFactoryOptions.SegmentSize = 32 * 1024 // dozens of shard replicas are created per run
-	h := &cfgHarness{r: r, w: w, g: g, prop: prop, labels: map[string]map[string]string{}, idsSeen: map[int64]string{}, termOf: map[int64]int64{}, gaveUp: map[string]bool{}, termSent: map[int64]int64{}, idsGone: map[int64]bool{},
+	h := &cfgHarness{r: r, w: w, g: g, prop: prop, labels: map[string]map[string]string{}, idsSeen: map[int64]string{}, termOf: map[int64]int64{}, gaveUp: map[string]bool{}, cutUntil: map[string]time.Duration{}, termSent: map[int64]int64{}, idsGone: map[int64]bool{},
 		maxID: -1, nsEpoch: map[string]int{}, published: map[string][]hashRng{}}
 	for i := 1; i <= 6; i++ {
 		h.pool = append(h.pool, fmt.Sprintf("n%d", i))
@@ -741,6 +752,9 @@ func runConfigHistory(r *Run, prop string) {
 						}
 					}
 					d := time.Duration(gi.Range(2000, 40000)) * time.Millisecond
+					h.mu.Lock()
+					h.cutUntil[n] = r.Now() + d
+					h.mu.Unlock()
 					w.Net.After(d, fmt.Sprintf("heal-removed/%d", i), func() {
 						for _, o := range others {
 							w.Net.Heal(n, o)
@@ -817,7 +831,7 @@ func runConfigHistory(r *Run, prop string) {
 				}
 				ns := cfg.Namespaces[gi.Intn(len(cfg.Namespaces))].Name
 				node := nodeOfAddr(cfg.Servers[gi.Intn(len(cfg.Servers))].GetIdentifier())
-				c := &cfgClient{name: fmt.Sprintf("client%d", len(h.clients)), ns: ns, epoch: h.epochOf(ns)}
+				c := &cfgClient{name: fmt.Sprintf("client%d", len(h.clients)), ns: ns, node: node, epoch: h.epochOf(ns)}
 				c.ep = w.Endpoint(c.name)
 				done := make(chan struct{})
 				c.ep.Go(func() {
@@ -851,6 +865,7 @@ func runConfigHistory(r *Run, prop string) {
 		if cl.Coord == nil {
 			cl.StartCoordinator()
 		}
+		w.Net.HealAll()
 		time.Sleep(30 * time.Second)
 		h.checkClients("end of run")
 	})
